@@ -644,7 +644,7 @@ pub fn run_child(cmd: &mut Command, limit: Duration) -> ChildEnd {
 }
 
 pub fn hang_limit() -> Duration {
-    Duration::from_secs(std::env::var("VERIF_HANG_S").ok().and_then(|s| s.parse().ok()).unwrap_or(60))
+    Duration::from_secs(std::env::var("VERIF_HANG_S").ok().and_then(|s| s.parse().ok()).unwrap_or(180))
 }
 
 /// Minimise a case whose failure is the death (or the hang) of the process, one
@@ -748,7 +748,7 @@ pub fn check(exe: &Path, prop: &str, tier: Tier) -> i32 {
         let _ = std::fs::remove_file(&crash_file);
         let mut cmd = Command::new(exe);
         cmd.arg("one").arg(prop).arg(if tier == Tier::Quick { "quick" } else { "thorough" }).arg(seed.to_string()).arg(c.run_index.to_string()).arg(&crash_file);
-        let end = run_child(&mut cmd, if was_hang { Duration::from_secs(30) } else { hang_limit() });
+        let end = run_child(&mut cmd, if was_hang { Duration::from_secs(60) } else { hang_limit() });
         let case: Option<AnyCase> = std::fs::read_to_string(&crash_file).ok().and_then(|s| serde_json::from_str(&s).ok());
         match (end, case) {
             (ChildEnd::Signaled(sig_no), Some(case)) => {
